@@ -22,6 +22,12 @@ FORESTS = {
               ("E", "A-E", "A", ["s390x"]),
               ("F", "F", None, ["x86_64"]),
               ("G", "F-G", "F", ["x86_64"])],
+    # a top-level variant whose UID carries a dash ('Server-HighAvailability', id 'ServerHighAvailability') sorts between 'Server' and
+    # Server's own children: UID order is not the depth-first order of the forest
+    "dashed": [("Server", "Server", None, ["x86_64", "s390x"]),
+               ("ResilientStorage", "Server-ResilientStorage", "Server", ["x86_64"]),
+               ("Addon", "Server-Addon", "Server", ["x86_64", "s390x"]),
+               ("ServerHighAvailability", "Server-HighAvailability", None, ["x86_64"])],          # childless, as the property's quantifier requires
 }
 TYPE_OF = {"optional": "optional", "HA": "addon", "RT": "variant"}
 
@@ -208,7 +214,7 @@ def jobs(tier, seed):
     out = []
     cases = []
     for forest in FORESTS:
-        parents = [None] + [u for i, u, p, a in FORESTS[forest]]
+        parents = [None] + [u for i, u, p, a in FORESTS[forest] if not (p is None and "-" in u)]      # dashed top-level variants stay childless
         for pi, parent in enumerate(parents):
             for ci_, cid in enumerate(CANDIDATE_IDS):
                 for ai in range(len(ARCH_SETS)):
@@ -224,7 +230,7 @@ def jobs(tier, seed):
         if forest != "empty":
             out.append({"harness": "reload_consistent", "params": {"forest": forest}})
     type_sets = [None, ["variant"], ["optional", "addon"], ["addon"], ["variant", "optional", "addon", "layered-product"], ["self"], ["self", "addon"]]
-    for forest in ("chain", "wide", "seven"):
+    for forest in ("chain", "wide", "seven", "dashed"):
         starts = [None] + [u for i, u, p, a in FORESTS[forest] if any(pp == u for _, _, pp, _ in FORESTS[forest])]
         for si, start in enumerate(starts):
             for ti, ts in enumerate(type_sets):
